@@ -286,7 +286,21 @@ class Engine:
         except Exception:
             ops = []
         okey = " ; ".join(re.sub(r"\s+", " ", o)[:90] for o in ops)
-        self.obl.append(dict(fn=f.path, kind=kind, ok=ok, line=site["span"]["l"][0], file=site["span"]["f"], descr=descr, okey=okey,
+        # is the operation input-dependent (operands derived from hostile bytes)? see sa/taint.py
+        tainted = True
+        try:
+            if not hasattr(self, "_taint"):
+                from .taint import Taint
+                self._taint = Taint(self.F)
+            raw = site["operands"] if site["k"] == "assert" else (site["args"][:3] if site["k"] == "call" else [])
+            ck = (f.path, id(site))
+            memo = self.__dict__.setdefault("_taint_memo", {})
+            if ck in memo: tainted = memo[ck]
+            elif raw:
+                tainted = memo[ck] = any(self._taint.is_tainted(f, f.origin_of_operand(o)) for o in raw)
+        except Exception:
+            tainted = True
+        self.obl.append(dict(fn=f.path, kind=kind, ok=ok, line=site["span"]["l"][0], file=site["span"]["f"], descr=descr, okey=okey, tainted=tainted,
                              ctx=" <- ".join(fr["stack"][-3:])))
         for l in lin_list: st.assume(l)  # continue as if it held
         return ok
